@@ -71,6 +71,30 @@ Definition pk_is_empty (p : pk) : bool := match p with PkEmpty => true | _ => fa
 (* 43 <= len <= 128 : a thumbprint is 43 chars, a raw string carries its own bit *)
 Definition pk_len_ok (p : pk) : bool := match p with PkEmpty => false | PkRaw _ b => b | PkHash _ => true end.
 
+(* RFC 9396: an authorization detail is its `type` plus an opaque payload (everything else in the JSON
+   object); the code only ever reads the type, the embedder's compare function may read all of it. *)
+Record adetail := mkDetail { ad_type : string; ad_payload : N }.
+Definition ad_eqb (a b : adetail) : bool := andb (seqb (ad_type a) (ad_type b)) (N.eqb (ad_payload a) (ad_payload b)).
+Definition ad_mem (d : adetail) (l : list adetail) : bool := existsb (ad_eqb d) l.
+Definition ad_subset (a b : list adetail) : bool := forallb (fun d => ad_mem d b) a.
+Definition ad_types (l : list adetail) : list string := map ad_type l.
+(* every detail of l has a type among `supported` *)
+Definition types_supported (supported : list string) (l : list adetail) : bool :=
+  forallb (fun d => mem (ad_type d) supported) l.
+Fixpoint ad_list_eqb (a b : list adetail) : bool :=
+  match a, b with
+  | [], [] => true
+  | x :: a', y :: b' => andb (ad_eqb x y) (ad_list_eqb a' b')
+  | _, _ => false
+  end.
+(* a request-side list: None = the parameter is absent (Go: nil slice), Some [] = `[]` was sent *)
+Definition opt_details := option (list adetail).
+
+(* CompareAuthDetailsFunc: the embedder's function (granted, requested) -> error.  The harness installs
+   one of these shapes; CmpSubset (every requested detail equals a granted one) is the intended use. *)
+Inductive details_cmp := CmpNone (* no function: every comparison fails *) | CmpSubset
+  | CmpAcceptAll (* a function that never objects *) | CmpTypes (* requested types among the granted types *).
+
 Record client := mkClient {
   c_id : id;
   c_public : bool;                  (* TokenAuthnMethod == none *)
@@ -87,11 +111,13 @@ Record client := mkClient {
   c_tls_required : bool;
   c_jarm_alg : bool;                (* JARMSigAlg != "" *)
   c_notif_ep : id;
-  c_user_code : bool
+  c_user_code : bool;
+  c_auth_detail_types : option (list string)   (* AuthDetailTypes (authorization_data_types); None = nil: any type *)
 }.
 #[export] Instance eta_client : Settable _ := settable! mkClient
   <c_id; c_public; c_grants; c_resp_types; c_redirects; c_scopes; c_ciba_mode; c_par_required;
-   c_jar_required; c_jwt_tokens; c_pairwise; c_dpop_required; c_tls_required; c_jarm_alg; c_notif_ep; c_user_code>.
+   c_jar_required; c_jwt_tokens; c_pairwise; c_dpop_required; c_tls_required; c_jarm_alg; c_notif_ep; c_user_code;
+   c_auth_detail_types>.
 
 (* goidc.AuthorizationParameters, the members the handlers look at *)
 Record params := mkParams {
@@ -108,13 +134,14 @@ Record params := mkParams {
   p_login_hint : string;
   p_notif_token : id;
   p_user_code : string;
-  p_resources : list string  (* the `resource` parameters (RFC 8707); [] = absent (Go: nil) *)
+  p_resources : list string; (* the `resource` parameters (RFC 8707); [] = absent (Go: nil) *)
+  p_auth_details : opt_details   (* the `authorization_details` parameter (RFC 9396) *)
 }.
 #[export] Instance eta_params : Settable _ := settable! mkParams
   <p_request_uri; p_redirect; p_resp_mode; p_resp_type; p_scopes; p_state; p_nonce; p_challenge;
-   p_method; p_dpop_jkt; p_login_hint; p_notif_token; p_user_code; p_resources>.
+   p_method; p_dpop_jkt; p_login_hint; p_notif_token; p_user_code; p_resources; p_auth_details>.
 Definition empty_params : params :=
-  mkParams 0%N "" "" "" "" "" "" PkEmpty "" 0%N "" 0%N "" [].
+  mkParams 0%N "" "" "" "" "" "" PkEmpty "" 0%N "" 0%N "" [] None.
 
 (* goidc.Resources.  A nil slice and an empty one are the same value here: form parsing yields nil or
    a non-empty slice, `omitempty` drops empty ones, and the scripted embedder passes nil for "none". *)
@@ -142,11 +169,12 @@ Record asession := mkASession {
   a_steps : N;              (* what the scripted policy keeps in session.Storage *)
   a_nonce_claim : string;   (* AdditionalIDTokenClaims["nonce"] *)
   a_params : params;
-  a_granted_res : list string   (* GrantedResources *)
+  a_granted_res : list string;  (* GrantedResources *)
+  a_granted_details : list adetail   (* GrantedAuthDetails *)
 }.
 #[export] Instance eta_asession : Settable _ := settable! mkASession
   <a_id; a_client; a_subject; a_par; a_cb; a_ciba; a_code; a_granted; a_jkt; a_x5t; a_expires;
-   a_steps; a_nonce_claim; a_params; a_granted_res>.
+   a_steps; a_nonce_claim; a_params; a_granted_res; a_granted_details>.
 
 Record gsession := mkGSession {
   g_id : id;
@@ -163,11 +191,13 @@ Record gsession := mkGSession {
   g_jkt : id;
   g_x5t : id;
   g_active_res : list string;   (* ActiveResources: the `aud` of the current access token *)
-  g_granted_res : list string   (* GrantedResources *)
+  g_granted_res : list string;  (* GrantedResources *)
+  g_active_details : list adetail;   (* ActiveAuthDetails: what the current access token carries *)
+  g_granted_details : list adetail   (* GrantedAuthDetails *)
 }.
 #[export] Instance eta_gsession : Settable _ := settable! mkGSession
   <g_id; g_token; g_refresh; g_last_exp; g_expires; g_code; g_type; g_subject; g_client;
-   g_active; g_granted; g_jkt; g_x5t; g_active_res; g_granted_res>.
+   g_active; g_granted; g_jkt; g_x5t; g_active_res; g_granted_res; g_active_details; g_granted_details>.
 
 (* ShouldIssueRefreshTokenFunc: the embedder's function (client, grant info) -> bool.  The harness
    installs one of these; they are the shapes the library's documentation and examples use, and the
@@ -221,7 +251,10 @@ Record config := mkConfig {
   cf_jwt_bearer_authn_required : bool;
   cf_prefix : string;
   cf_resource_enabled : bool;       (* ResourceIndicatorsIsEnabled *)
-  cf_resources : list string        (* Resources: the resource servers the provider knows *)
+  cf_resources : list string;       (* Resources: the resource servers the provider knows *)
+  cf_auth_details_enabled : bool;   (* AuthDetailsIsEnabled *)
+  cf_auth_detail_types : list string;  (* AuthDetailTypes: the types the server supports *)
+  cf_details_cmp : details_cmp      (* CompareAuthDetailsFunc *)
 }.
 #[export] Instance eta_config : Settable _ := settable! mkConfig
   <cf_profile; cf_grants; cf_scopes; cf_resp_types; cf_resp_modes; cf_openid_required;
@@ -233,7 +266,7 @@ Record config := mkConfig {
    cf_dpop_enabled; cf_dpop_required; cf_mtls_enabled; cf_tls_binding_enabled; cf_tls_binding_required;
    cf_binding_required; cf_introspection; cf_revocation; cf_dcr; cf_dcr_rotation;
    cf_resource_required; cf_issuer_param; cf_jwt_bearer_authn_required; cf_prefix;
-   cf_resource_enabled; cf_resources>.
+   cf_resource_enabled; cf_resources; cf_auth_details_enabled; cf_auth_detail_types; cf_details_cmp>.
 
 (* ResponseType.Contains / IsImplicit; ResponseMode predicates *)
 Definition rt_contains (rt part : string) : bool := mem part (split_sp rt).
